@@ -508,7 +508,9 @@ class EChaos(Engine):
             if form == 'bytes':
                 return kernel_bits_to_bytes(bits)
             if form == 'bytearray':
-                return bytearray(kernel_bits_to_bytes(bits))
+                ba_ = bytearray(kernel_bits_to_bytes(bits))
+                used.append(ba_)
+                return ba_
             if form == 'memoryview':
                 return memoryview(kernel_bits_to_bytes(bits))
             if form == 'memoryview_strided':
@@ -536,7 +538,9 @@ class EChaos(Engine):
             if form == 'bitarray':
                 return _ba.bitarray(bits)
             if form == 'bytesio':
-                return io.BytesIO(kernel_bits_to_bytes(bits))
+                bio_ = io.BytesIO(kernel_bits_to_bytes(bits))
+                used.append(bio_)
+                return bio_
             if form == 'array':
                 return array.array('B', kernel_bits_to_bytes(bits))
             return ('0b' + bits) if bits else ''
@@ -626,6 +630,17 @@ class EChaos(Engine):
             if isinstance(u, FailingText) and u.fail_at is not None and u.n >= u.fail_at:
                 self.probe('text_stream_fault_fired')
                 self.fault('text_stream_fault')
+        # the caller's own buffers are still the caller's: whatever the call did (and while its exception, if any, is still referenced
+        # here) a BytesIO can be written to and a bytearray resized
+        for u in used:
+            if isinstance(u, io.BytesIO):
+                st_u, e_u = call(lambda: (u.write(b''), u.seek(0, 2), u.write(b'x'), u.truncate(0)))
+                if st_u != 'ok' and isinstance(e_u, BufferError):
+                    incs.append(self.inc(f'{label}|{mode}|invalid-post-state:caller-buffer-left-locked', event=ev, kind='BytesIO', message=str(e_u)[:120]))
+            elif isinstance(u, bytearray):
+                st_u, e_u = call(lambda: (u.append(0), u.pop()))
+                if st_u != 'ok' and isinstance(e_u, BufferError):
+                    incs.append(self.inc(f'{label}|{mode}|invalid-post-state:caller-buffer-left-locked', event=ev, kind='bytearray', message=str(e_u)[:120]))
         after = self._valid()
         bmap = {(i, n): ok for i, n, ok in before}
         for i, n, ok in after:
